@@ -689,7 +689,7 @@ func main() {
 	rep := vh.NewReport(a, "stream A: corpus/C32/*.json, 80+ enumerated edge constants (0, -0.0, 1e+-1000, 1e+-1300, 1e+-100000, 2^-4097..2^4096, non-dyadic rationals, MaxUint64+1, "+
 		"10^40, 1<<5000, runes, complex, strings with ':' / NUL / 0xff / all 256 bytes / empty) and PRNG constants of every kind (ints up to 4000 bits, ratVal and floatVal floats built with go/constant "+
 		"literals and operations, complex pairs, byte strings biased to ':'); excluded class = ratVal with |numerator| or denominator >= 2^4095-2^3582 (recorded finding, its exact inputs are replayed from the corpus only); "+
-		"stream B: every distinct text of the Untypeds tables of $VERIF_REPO/imports (quick: all non-int texts + a sample of the int texts); stream C: hand-written and mutated texts (model correspondence only). "+
+		"stream B: every distinct text of the Untypeds tables of $VERIF_REPO/imports (read with go/parser at run time); stream C: hand-written and mutated texts (model correspondence only). "+
 		"Oracle A: Unmarshal(Marshal(k,v)) has kind k and EXACTLY the value v (big.Int/big.Rat/big.Float comparison + constant.Compare; strings bytewise); oracle B: Marshal(Unmarshal(t)) == t. "+
 		"non-trivial = stream A/B case whose value is not nil; distinct by SHA-256 of the marshalled text")
 	wd := vh.NewWatchdog(rep, 20*time.Second)
@@ -866,9 +866,7 @@ func main() {
 	nTexts := len(texts)
 	nB := 0
 	for i, text := range texts {
-		if !a.Thorough() && strings.HasPrefix(text, "int:") && len(text) < 24 && i%8 != int(a.Seed%8) {
-			continue
-		}
+		_ = i
 		wd.Beat(text)
 		in := map[string]interface{}{"stream": "B", "text": short(text)}
 		k, v, res, ok := runUnmarshal(text)
